@@ -122,7 +122,7 @@ fn extra_patterns() -> Vec<&'static str> {
 }
 
 impl Family for Replace {
-    fn search(&self, budget: &mut Budget, _seed: u64) -> Option<(Value, String)> {
+    fn search(&self, budget: &mut Budget, seed: u64) -> Option<(Value, String)> {
         let mut pats = corpus::patterns();
         pats.extend(extra_patterns());
         for bl in [None, Some(1usize), Some(3)] {
@@ -139,6 +139,21 @@ impl Family for Replace {
                     }
                 }
             }
+        }
+        // the rest of the budget: generated patterns
+        let mut index = 0u64;
+        while !budget.expired() {
+            for p in corpus::generated(seed, index) {
+                for t in corpus::small_texts() {
+                    for bl in [None, Some(3usize)] {
+                        budget.evals += 1;
+                        if let Some(d) = check(&p, t, bl) {
+                            return Some((json!({"pattern": p, "text": t, "backtrack_limit": bl}), d));
+                        }
+                    }
+                }
+            }
+            index += 1;
         }
         None
     }
